@@ -129,6 +129,16 @@ def estimator_configs():
     add("SlidingWindowClassifier", "SklearnClassifier(GaussianNB),window_size=3", swc(skc(GaussianNB), 3, False),
         "clf", kind="window", wsize=3, partial=True, alt=(lambda: {"estimator__estimator__var_smoothing": 1e-3}, False))
 
+    # nested parameters changed through set_params: a refit must be built from the *current* nested estimator
+    def pwc_g():
+        d = {"gamma": 0.5}
+        return PWC(classes=[0, 1], metric_dict=d, random_state=0), [("metric_dict", d)]
+
+    add("SlidingWindowClassifier", "ParzenWindowClassifier(gamma=0.5),window_size=3", swc(pwc_g, 3, False),
+        "clf", kind="window", wsize=3, partial=True, alt=(lambda: {"estimator__metric_dict": {"gamma": 8.0}}, False))
+    add("SlidingWindowClassifier", "ParzenWindowClassifier(gamma=0.5),window_size=None", swc(pwc_g, 0, False),
+        "clf", kind="window", wsize=0, partial=True, alt=(lambda: {"estimator__metric_dict": {"gamma": 8.0}}, False))
+
     # --- multi-annotator classifiers
     def alr():
         return AnnotatorLogisticRegression(classes=[0, 1], n_annotators=2, random_state=0), []
@@ -469,6 +479,10 @@ def main(tier="quick", seed=0):
     h.expect_violation(chk, "MC_FitModel_stale.cfg", "WindowRestart")
     # (G)
     hists = chk.generate("MC_FitModel", "FitModel_gen_hist.cfg" if quick else "FitModel_gen_hist4.cfg")
+    if quick:
+        # depth-3 histories that contain a set_params step (a refit after set_params must use the new value)
+        hists += [hs for hs in chk.generate("MC_FitModel", "FitModel_gen_hist3s.cfg")
+                  if any(st["op"] == "SetParams" for st in hs["steps"])]
     _HISTS.clear()
     for hs in hists:
         _HISTS.setdefault((hs["kind"], hs["wsize"], hs["onlyLab"]), []).append(hs)
@@ -481,7 +495,7 @@ def main(tier="quick", seed=0):
         raise tlc.MachineryError("no C13 configuration for exported classes: %s" % miss)
     # (T) estimators
     jobs = []
-    cap = 110 if quick else 100000
+    cap = 70 if quick else 100000
     for ci, cfg in enumerate(_CFGS):
         key = (cfg["kind"], cfg["wsize"], cfg["onlyLab"])
         ok = [i for i, hs in enumerate(_HISTS.get(key, []))
